@@ -9264,13 +9264,17 @@ class SVG(Group):
                     if s.viewbox is not None:
                         try:
                             if s.height == 0 or s.width == 0:
-                                return s
+                                raise ZeroDivisionError
                             viewport_transform = s.viewbox_transform
                         except ZeroDivisionError:
                             # The width or height was zero.
                             # https://www.w3.org/TR/SVG11/struct.html#SVGElementWidthAttribute
                             # "A value of zero disables rendering of the element."
-                            return s  # No more parsing will be done.
+                            if context is None:
+                                return s  # No more parsing will be done.
+                            # A nested svg: only this element and its content are not rendered.
+                            values[SVG_ATTR_DISPLAY] = SVG_VALUE_NONE
+                            continue
 
                         if SVG_ATTR_TRANSFORM in values:
                             # transform on SVG element applied as if svg had parent with transform.
